@@ -27,3 +27,151 @@ package evalfilter
 //@ func New(script string) (result *Eval)
 //@   ensures new.ok: result != nil && fresh(result) && evalOK(result) && result.Script == script && result.machine == nil
 //@   panics never
+
+// ---- code emission ------------------------------------------------------------------------------
+//@ func (e *Eval) emit(op code.Opcode, operands ...int) (pos int)
+//@   requires len(operands) <= 1
+//@   modifies e.instructions, e.instructions[*]
+//@   ensures @C18 emit.pos: pos == old(len(e.instructions)) && len(e.instructions) == pos + (len(operands) == 1 ? 3 : 1)
+//@   ensures @C18 emit.prefix: (forall i in 0..pos :: e.instructions[i] == old(e.instructions[i])) && (arr(e.instructions) == old(arr(e.instructions)) || fresh(e.instructions))
+//@   ensures @C18 @C01 emit.opcode: e.instructions[pos] == op
+//@   ensures @C18 @C01 emit.operand: len(operands) == 1 ==> e.instructions[pos + 1] * 256 + e.instructions[pos + 2] == wrap16(operands[0])
+//@   panics never
+
+//@ func (e *Eval) changeOperand(opPos int, operand int)
+//@   requires 0 <= opPos && opPos + 2 < len(e.instructions)
+//@   modifies e.instructions[*]
+//@   ensures @C18 @C02 change.operand: e.instructions[opPos + 1] * 256 + e.instructions[opPos + 2] == wrap16(operand)
+//@   ensures @C18 change.rest: forall i in 0..len(e.instructions) :: i != opPos + 1 && i != opPos + 2 ==> e.instructions[i] == old(e.instructions[i])
+//@   panics never
+
+// the constant pool: a literal is stored once per (type, printed form); earlier entries never move
+//@ func (e *Eval) addConstant(obj object.Object) (idx int)
+//@   requires validObj(obj)
+//@   modifies e.constants, e.constants[*]
+//@   ensures @C18 @C01 addc.range: 0 <= idx && idx < len(e.constants) && len(e.constants) >= old(len(e.constants))
+//@   ensures @C01 @C15 addc.type: tag(e.constants[idx]) == tag(obj)
+//@   ensures @C01 addc.new: idx >= old(len(e.constants)) ==> e.constants[idx] === obj && len(e.constants) == old(len(e.constants)) + 1
+//@   ensures @C18 addc.prefix: forall i in 0..old(len(e.constants)) :: e.constants[i] === old(e.constants[i])
+//@   panics maybe
+
+// ---- the compiler -------------------------------------------------------------------------------
+// compile appends the code of node to e.instructions (patching only bytes it emitted itself), adds
+// constants at the end of the pool, and reports every error it meets.
+//@ func (e *Eval) compile(node ast.Node) (err error)
+//@   requires e.functions != nil
+//@   ensures @C13 compile.propagate: nerrs() > old(nerrs()) ==> err != nil
+//@   ensures compile.errs.mono: nerrs() >= old(nerrs())
+//@   ensures @C18 compile.len: len(e.instructions) >= old(len(e.instructions)) && (arr(e.instructions) == old(arr(e.instructions)) || fresh(e.instructions))
+//@   ensures @C18 compile.prefix: forall i in 0..old(len(e.instructions)) :: e.instructions[i] == old(e.instructions[i])
+//@   ensures @C18 compile.pool.len: len(e.constants) >= old(len(e.constants))
+//@   ensures @C18 compile.pool: forall i in 0..old(len(e.constants)) :: e.constants[i] === old(e.constants[i])
+//@   ensures @C18 compile.rows: forall a ref :: existed(a) && a != old(arr(e.instructions)) ==> rowUnchanged(byte, a)
+//@   ensures @C18 compile.functions: e.functions == old(e.functions)
+//@   ensures @C01 compile.infix.op: err == nil && istype(node, *ast.InfixExpression) && isBinOperator(node.(*ast.InfixExpression).Operator) ==> len(e.instructions) > old(len(e.instructions)) && e.instructions[len(e.instructions) - 1] == opOf(node.(*ast.InfixExpression).Operator)
+//@   ensures @C01 compile.prefix.op: err == nil && istype(node, *ast.PrefixExpression) ==> len(e.instructions) > old(len(e.instructions)) && e.instructions[len(e.instructions) - 1] == unOpOf(node.(*ast.PrefixExpression).Operator)
+//@   ensures @C01 @C15 compile.int.inline: err == nil && istype(node, *ast.IntegerLiteral) && 0 <= node.(*ast.IntegerLiteral).Value && node.(*ast.IntegerLiteral).Value <= 65534
+//@             ==> len(e.instructions) == old(len(e.instructions)) + 3 && e.instructions[old(len(e.instructions))] == code.OpPush && operandAt(e, old(len(e.instructions))) == node.(*ast.IntegerLiteral).Value
+//@   ensures @C01 @C15 compile.int.pool: err == nil && istype(node, *ast.IntegerLiteral) && (node.(*ast.IntegerLiteral).Value < 0 || node.(*ast.IntegerLiteral).Value > 65534)
+//@             ==> len(e.instructions) == old(len(e.instructions)) + 3 && e.instructions[old(len(e.instructions))] == code.OpConstant
+//@   ensures @C01 compile.bool: err == nil && istype(node, *ast.BooleanLiteral) ==> len(e.instructions) == old(len(e.instructions)) + 1 && e.instructions[old(len(e.instructions))] == (node.(*ast.BooleanLiteral).Value ? code.OpTrue : code.OpFalse)
+//@   ensures @C02 compile.return: err == nil && istype(node, *ast.ReturnStatement) ==> len(e.instructions) > old(len(e.instructions)) && e.instructions[len(e.instructions) - 1] == code.OpReturn
+//@   panics maybe
+//@ loop 1 invariant compile.inv.len: len(e.instructions) >= old(len(e.instructions)) && (arr(e.instructions) == old(arr(e.instructions)) || fresh(e.instructions))
+//@ loop 1 invariant compile.inv.prefix: forall i in 0..old(len(e.instructions)) :: e.instructions[i] == old(e.instructions[i])
+//@ loop 1 invariant compile.inv.pool.len: len(e.constants) >= old(len(e.constants))
+//@ loop 1 invariant compile.inv.pool: forall i in 0..old(len(e.constants)) :: e.constants[i] === old(e.constants[i])
+//@ loop 1 invariant compile.inv.errs: nerrs() == old(nerrs()) && e.functions == old(e.functions) && e.functions != nil
+//@ loop 1 invariant compile.inv.rows: forall a ref :: existed(a) && a != old(arr(e.instructions)) ==> rowUnchanged(byte, a)
+//@ loop 2 invariant compile.inv.len: len(e.instructions) >= old(len(e.instructions)) && (arr(e.instructions) == old(arr(e.instructions)) || fresh(e.instructions))
+//@ loop 2 invariant compile.inv.prefix: forall i in 0..old(len(e.instructions)) :: e.instructions[i] == old(e.instructions[i])
+//@ loop 2 invariant compile.inv.pool.len: len(e.constants) >= old(len(e.constants))
+//@ loop 2 invariant compile.inv.pool: forall i in 0..old(len(e.constants)) :: e.constants[i] === old(e.constants[i])
+//@ loop 2 invariant compile.inv.errs: nerrs() == old(nerrs()) && e.functions == old(e.functions) && e.functions != nil
+//@ loop 2 invariant compile.inv.rows: forall a ref :: existed(a) && a != old(arr(e.instructions)) ==> rowUnchanged(byte, a)
+//@ loop 3 invariant compile.inv.len: len(e.instructions) >= old(len(e.instructions)) && (arr(e.instructions) == old(arr(e.instructions)) || fresh(e.instructions))
+//@ loop 3 invariant compile.inv.prefix: forall i in 0..old(len(e.instructions)) :: e.instructions[i] == old(e.instructions[i])
+//@ loop 3 invariant compile.inv.pool.len: len(e.constants) >= old(len(e.constants))
+//@ loop 3 invariant compile.inv.pool: forall i in 0..old(len(e.constants)) :: e.constants[i] === old(e.constants[i])
+//@ loop 3 invariant compile.inv.errs: nerrs() == old(nerrs()) && e.functions == old(e.functions) && e.functions != nil
+//@ loop 3 invariant compile.inv.rows: forall a ref :: existed(a) && a != old(arr(e.instructions)) ==> rowUnchanged(byte, a)
+//@ loop 4 invariant compile.inv.len: len(e.instructions) >= old(len(e.instructions)) && (arr(e.instructions) == old(arr(e.instructions)) || fresh(e.instructions))
+//@ loop 4 invariant compile.inv.prefix: forall i in 0..old(len(e.instructions)) :: e.instructions[i] == old(e.instructions[i])
+//@ loop 4 invariant compile.inv.pool.len: len(e.constants) >= old(len(e.constants))
+//@ loop 4 invariant compile.inv.pool: forall i in 0..old(len(e.constants)) :: e.constants[i] === old(e.constants[i])
+//@ loop 4 invariant compile.inv.errs: nerrs() == old(nerrs()) && e.functions == old(e.functions) && e.functions != nil
+//@ loop 4 invariant compile.inv.rows: forall a ref :: existed(a) && a != old(arr(e.instructions)) ==> rowUnchanged(byte, a)
+//@ loop 5 invariant compile.inv.len: len(e.instructions) >= old(len(e.instructions)) && (arr(e.instructions) == old(arr(e.instructions)) || fresh(e.instructions))
+//@ loop 5 invariant compile.inv.prefix: forall i in 0..old(len(e.instructions)) :: e.instructions[i] == old(e.instructions[i])
+//@ loop 5 invariant compile.inv.pool.len: len(e.constants) >= old(len(e.constants))
+//@ loop 5 invariant compile.inv.pool: forall i in 0..old(len(e.constants)) :: e.constants[i] === old(e.constants[i])
+//@ loop 5 invariant compile.inv.errs: nerrs() == old(nerrs()) && e.functions == old(e.functions) && e.functions != nil
+//@ loop 5 invariant compile.inv.rows: forall a ref :: existed(a) && a != old(arr(e.instructions)) ==> rowUnchanged(byte, a)
+//@ loop 6 invariant compile.inv.fn: e.functions == entry(e.functions) && e.functions != nil && nerrs() == old(nerrs())
+//@ loop 6 invariant compile.inv.fn.pool.len: len(e.constants) >= old(len(e.constants))
+//@ loop 6 invariant compile.inv.fn.pool: forall i in 0..old(len(e.constants)) :: e.constants[i] === old(e.constants[i])
+//@ loop 6 invariant compile.inv.fn.rows: forall a ref :: existed(a) ==> rowUnchanged(byte, a)
+//@ loop 7 invariant compile.inv.len: len(e.instructions) >= old(len(e.instructions)) && (arr(e.instructions) == old(arr(e.instructions)) || fresh(e.instructions))
+//@ loop 7 invariant compile.inv.prefix: forall i in 0..old(len(e.instructions)) :: e.instructions[i] == old(e.instructions[i])
+//@ loop 7 invariant compile.inv.pool.len: len(e.constants) >= old(len(e.constants))
+//@ loop 7 invariant compile.inv.pool: forall i in 0..old(len(e.constants)) :: e.constants[i] === old(e.constants[i])
+//@ loop 7 invariant compile.inv.errs: nerrs() == old(nerrs()) && e.functions == old(e.functions) && e.functions != nil
+//@ loop 7 invariant compile.inv.rows: forall a ref :: existed(a) && a != old(arr(e.instructions)) ==> rowUnchanged(byte, a)
+//@ loop 7 invariant @C18 compile.inv.patches.lo: forall k in 0..len(patches) :: old(len(e.instructions)) <= patches[k]
+//@ loop 7 invariant @C18 compile.inv.patches.hi: forall k in 0..len(patches) :: patches[k] + 2 < len(e.instructions)
+//@ loop 7 invariant compile.inv.patches.fresh: fresh(patches)
+//@ loop 8 invariant compile.inv.len: len(e.instructions) >= old(len(e.instructions)) && (arr(e.instructions) == old(arr(e.instructions)) || fresh(e.instructions))
+//@ loop 8 invariant compile.inv.prefix: forall i in 0..old(len(e.instructions)) :: e.instructions[i] == old(e.instructions[i])
+//@ loop 8 invariant compile.inv.pool.len: len(e.constants) >= old(len(e.constants))
+//@ loop 8 invariant compile.inv.pool: forall i in 0..old(len(e.constants)) :: e.constants[i] === old(e.constants[i])
+//@ loop 8 invariant compile.inv.errs: nerrs() == old(nerrs()) && e.functions == old(e.functions) && e.functions != nil
+//@ loop 8 invariant compile.inv.rows: forall a ref :: existed(a) && a != old(arr(e.instructions)) ==> rowUnchanged(byte, a)
+//@ loop 8 invariant @C18 compile.inv.patches.lo: forall k in 0..len(patches) :: old(len(e.instructions)) <= patches[k]
+//@ loop 8 invariant @C18 compile.inv.patches.hi: forall k in 0..len(patches) :: patches[k] + 2 < len(e.instructions)
+//@ loop 8 invariant compile.inv.patches.fresh: fresh(patches)
+//@ loop 9 invariant compile.inv.len: len(e.instructions) >= old(len(e.instructions)) && (arr(e.instructions) == old(arr(e.instructions)) || fresh(e.instructions))
+//@ loop 9 invariant compile.inv.prefix: forall i in 0..old(len(e.instructions)) :: e.instructions[i] == old(e.instructions[i])
+//@ loop 9 invariant compile.inv.pool.len: len(e.constants) >= old(len(e.constants))
+//@ loop 9 invariant compile.inv.pool: forall i in 0..old(len(e.constants)) :: e.constants[i] === old(e.constants[i])
+//@ loop 9 invariant compile.inv.errs: nerrs() == old(nerrs()) && e.functions == old(e.functions) && e.functions != nil
+//@ loop 9 invariant compile.inv.rows: forall a ref :: existed(a) && a != old(arr(e.instructions)) ==> rowUnchanged(byte, a)
+//@ loop 9 invariant @C18 compile.inv.patches.lo: forall k in 0..len(patches) :: old(len(e.instructions)) <= patches[k]
+//@ loop 9 invariant @C18 compile.inv.patches.hi: forall k in 0..len(patches) :: patches[k] + 2 < len(e.instructions)
+//@ loop 9 invariant compile.inv.patches.fresh: fresh(patches)
+//@ loop 10 invariant compile.inv.len: len(e.instructions) >= old(len(e.instructions)) && (arr(e.instructions) == old(arr(e.instructions)) || fresh(e.instructions))
+//@ loop 10 invariant compile.inv.prefix: forall i in 0..old(len(e.instructions)) :: e.instructions[i] == old(e.instructions[i])
+//@ loop 10 invariant compile.inv.pool.len: len(e.constants) >= old(len(e.constants))
+//@ loop 10 invariant compile.inv.pool: forall i in 0..old(len(e.constants)) :: e.constants[i] === old(e.constants[i])
+//@ loop 10 invariant compile.inv.errs: nerrs() == old(nerrs()) && e.functions == old(e.functions) && e.functions != nil
+//@ loop 10 invariant compile.inv.rows: forall a ref :: existed(a) && a != old(arr(e.instructions)) ==> rowUnchanged(byte, a)
+//@ loop 10 invariant @C18 compile.inv.patches.lo: forall k in 0..len(patches) :: old(len(e.instructions)) <= patches[k]
+//@ loop 10 invariant @C18 compile.inv.patches.hi: forall k in 0..len(patches) :: patches[k] + 2 < len(e.instructions)
+//@ loop 10 invariant compile.inv.patches.fresh: fresh(patches)
+//@ loop 11 invariant compile.inv.len: len(e.instructions) >= old(len(e.instructions)) && (arr(e.instructions) == old(arr(e.instructions)) || fresh(e.instructions))
+//@ loop 11 invariant compile.inv.prefix: forall i in 0..old(len(e.instructions)) :: e.instructions[i] == old(e.instructions[i])
+//@ loop 11 invariant compile.inv.pool.len: len(e.constants) >= old(len(e.constants))
+//@ loop 11 invariant compile.inv.pool: forall i in 0..old(len(e.constants)) :: e.constants[i] === old(e.constants[i])
+//@ loop 11 invariant compile.inv.errs: nerrs() == old(nerrs()) && e.functions == old(e.functions) && e.functions != nil
+//@ loop 11 invariant compile.inv.rows: forall a ref :: existed(a) && a != old(arr(e.instructions)) ==> rowUnchanged(byte, a)
+
+// ---- the embedding API (C20) --------------------------------------------------------------------
+//@ func (e *Eval) AddFunction(name string, fun interface{})
+//@   requires evalOK(e)
+//@   modifies e.environment.functions[*]
+//@   ensures @C20 addfunction.def: has(e.environment.functions, name) && e.environment.functions[name] === fun
+//@   ensures @C20 addfunction.keep: forall k string :: k != name ==> has(e.environment.functions, k) == old(has(e.environment.functions, k)) && e.environment.functions[k] === old(e.environment.functions[k])
+//@   panics never
+
+//@ func (e *Eval) SetVariable(name string, value object.Object)
+//@   requires evalOK(e) && validObj(value)
+//@   modifies e.environment.local[*][*], e.environment.global[*]
+//@   ensures @C20 setvariable.global: old(scopeOf(e.environment, name, len(e.environment.local))) < 0 ==> mapUpdated(e.environment.global, name, value)
+//@   panics never
+
+//@ func (e *Eval) GetVariable(name string) (result object.Object)
+//@   requires evalOK(e)
+//@   modifies nothing
+//@   ensures @C20 getvariable.local: scopeOf(e.environment, name, len(e.environment.local)) >= 0 ==> result === e.environment.local[scopeOf(e.environment, name, len(e.environment.local))][name]
+//@   ensures @C20 getvariable.global: scopeOf(e.environment, name, len(e.environment.local)) < 0 && has(e.environment.global, name) ==> result === e.environment.global[name]
+//@   ensures @C20 getvariable.unset: scopeOf(e.environment, name, len(e.environment.local)) < 0 && !has(e.environment.global, name) ==> isNull(result) && fresh(result)
+//@   panics never
